@@ -17,7 +17,7 @@ type ForInfo struct {
 	EquBetweenBlocks, LabelledBodyStartsWithBareFor, ChainedEqu     bool
 	EquInsideBlock, LabelledBodyStartsWithSilentFor, EmptyBody      bool
 	LabelInsideBody, EquTwoLevelsDeep, EquByCounter                 bool
-	LabelsInDeadBlock, EquWeb                                       bool
+	LabelsInDeadBlock, EquWeb, ConstCount, SignRunEqu               bool
 }
 
 type forGen struct {
@@ -31,7 +31,8 @@ type forGen struct {
 	nBlock     int
 	nBodyLab   int
 	nDead      int
-	equHeavy   bool // an EQU web: more definitions, values naming several earlier ones, most counts use one
+	noConst    bool      // the configuration's values do not fit 32-bit count arithmetic: no predefined constants in counts
+	equHeavy   bool      // an EQU web: more definitions, values naming several earlier ones, most counts use one
 	nestedEqus []rc.Item // EQU definitions still to be placed inside a body that is written out once
 	topLabs    []string  // instruction labels outside blocks
 	blkLabs    []string  // block labels (all, known up front)
@@ -104,8 +105,15 @@ func (g *forGen) countExpr(v int64) []rc.Tok {
 	if g.equHeavy && cequ == 1 {
 		cequ = 0
 	}
-	if len(g.equs) > 0 && cequ == 0 {
-		e := rc.ID(rapid.SampledFrom(g.equs).Draw(t, "ce"))
+	// a count may also name a predefined constant (directly here, or through an EQU value)
+	cands := g.equs
+	if !g.noConst && rapid.IntRange(0, 5).Draw(t, "cconst") == 0 {
+		cands = []string{"CORESIZE", "MAXLENGTH", "MAXPROCESSES", "MINDISTANCE"}
+		cequ = 0
+		g.info.ConstCount = true
+	}
+	if len(cands) > 0 && cequ == 0 {
+		e := rc.ID(rapid.SampledFrom(cands).Draw(t, "ce"))
 		var base []rc.Tok
 		// templates in which operator precedence reaches into a textually substituted EQU body
 		switch rapid.IntRange(0, 7).Draw(t, "ctmpl") {
@@ -292,6 +300,7 @@ func (g *forGen) forcedEmitting(depth int, counters []string, budget int) (rc.It
 // ForProgram draws a program with FOR/ROF blocks (see DESIGN.md C08 for what is kept out and why).
 func ForProgram(t *rapid.T, cfg AsmConfig) (rc.Program, ForInfo) {
 	g := &forGen{t: t, cfg: cfg, equVal: map[string]int64{}}
+	g.noConst = cfg.CoreSize >= 1<<30 || cfg.Length >= 1<<30 || cfg.Processes >= 1<<30 || cfg.Distance >= 1<<30
 	var items []rc.Item
 	ne := rapid.IntRange(0, 3).Draw(t, "nequ")
 	if Rare(t, "equheavy", 3) {
@@ -310,7 +319,36 @@ func ForProgram(t *rapid.T, cfg AsmConfig) (rc.Program, ForInfo) {
 		if g.equHeavy && k >= 2 && ek <= 3 {
 			ek = 6
 		}
+		if !g.equHeavy && Rare(t, "ekspecial", 2) {
+			ek = rapid.IntRange(7, 8).Draw(t, "ekx")
+			if g.noConst {
+				ek = 8
+			}
+		}
 		switch ek {
+		case 7: // the value names a predefined constant
+			cn := rapid.SampledFrom([]string{"CORESIZE", "MAXLENGTH", "MAXPROCESSES", "MINDISTANCE"}).Draw(t, "ekconst")
+			switch rapid.IntRange(0, 2).Draw(t, "ekconstk") {
+			case 0:
+				body = rc.Toks(rc.ID(cn))
+			case 1:
+				body = rc.Toks(rc.ID(cn), rc.OP("/"), rc.N(int64(rapid.IntRange(2, 50).Draw(t, "ekdiv"))))
+			default:
+				body = rc.Toks(rc.ID(cn), rc.OP("%"), rc.N(7))
+			}
+		case 8: // the value holds a run of signs that folds to something shorter
+			b := int64(rapid.IntRange(0, 3).Draw(t, "ev2"))
+			switch rapid.IntRange(0, 3).Draw(t, "eksign") {
+			case 0:
+				body = rc.Toks(rc.N(a), rc.OP("-"), rc.OP("-"), rc.N(b))
+			case 1:
+				body = rc.Toks(rc.N(a), rc.OP("*"), rc.OP("-"), rc.OP("+"), rc.OP("-"), rc.N(b))
+			case 2:
+				body = rc.Toks(rc.N(a), rc.OP("-"), rc.OP("-"), rc.OP("-"), rc.OP("-"), rc.N(b))
+			default:
+				body = rc.Toks(rc.LP(), rc.N(a), rc.OP("+"), rc.N(1), rc.RP(), rc.OP("*"), rc.OP("-"), rc.OP("-"), rc.N(b))
+			}
+			g.info.SignRunEqu = true
 		case 6:
 			// the value names several earlier definitions, in any order
 			g.info.ChainedEqu = true
